@@ -29,6 +29,8 @@ if [ -n "${SEED_SCRATCH:-}" ]; then
   # development mode: run the check against the scratch worktree (which already carries the change), outputs to a scratch dir
   out=$(cd /verif && VERIF_REPO=$wt VERIF_OUT=$wt-demo/out ./check $prop 2>&1); rc=$?
 else
+  # never work on a dirty /repo: the revert below would wipe uncommitted contract edits
+  if [ -n "$(git -C /repo status --porcelain)" ]; then echo "/repo has uncommitted changes: commit them first (or use SEED_SCRATCH=1)"; exit 6; fi
   git -C /repo apply $src/patch.diff || exit 5
   out=$(cd /verif && ./check $prop 2>&1); rc=$?
   git -C /repo checkout -- .
